@@ -48,21 +48,72 @@ NAMED = [('a.asdf', None), ('a.fits', None), ('a.fits.gz', None), ('a.pkl', None
 # ---------------------------------------------------------------------------------------------
 # specs -> objects
 
-def _values(dtype, ints):
-    """Exactly representable values of the requested dtype from small integers."""
+# Dynamic range inside one object (round 6, seeded class C16-11): exponent window per float dtype such that
+# (k/4) * 2^e is exact for |k| <= 12 (LO + 2 gives k * 2^LO, the subnormals) and 2 * 3 * 2^HI does not overflow.
+EXP_RANGE = {2: (-22, 12), 4: (-147, 120), 8: (-1072, 1000)}
+DYN_PROFILES = ['wide60', 'tiny-in-mode', 'huge-in-mode', 'subnormal', 'extremes']
+
+
+def _values(dtype, ints, exps=None):
+    """Exactly representable values of the requested dtype from small integers.  `exps` (one integer per element, the
+    dynamic-range dimension): floating-point and complex elements are multiplied by 2**e (clipped to the exponent window
+    of the dtype, so subnormals and values next to the overflow threshold occur inside one array next to ordinary ones;
+    real and imaginary parts get different exponents); integer elements are shifted left by |e| mod (bits - 5 or 7), so
+    one array holds 1 next to 2**(bits - 2)."""
     ints = np.asarray(ints, dtype='int64')
     dt = np.dtype(dtype)
+    if exps is not None:
+        exps = np.asarray(list(exps)[:ints.size] + [0] * max(0, ints.size - len(exps)), dtype='int64').reshape(ints.shape)
     if dt.kind == 'b':
         return (ints % 2).astype(bool)
     if dt.kind == 'u':
-        return (np.abs(ints) % 200).astype(dt)
+        v = (np.abs(ints) % 200)
+        if exps is not None:
+            v = v.astype('uint64') << (np.abs(exps) % (8 * dt.itemsize - 7)).astype('uint64')
+        return v.astype(dt)
     if dt.kind == 'i':
+        if exps is not None:
+            ints = ints << (np.abs(exps) % (8 * dt.itemsize - 5))
         return ints.astype(dt)
     if dt.kind == 'f':
-        return (ints / 4.0).astype(dt)
+        v = (ints / 4.0).astype(dt)
+        if exps is not None:
+            lo, hi = EXP_RANGE[dt.itemsize]
+            v = np.ldexp(v, np.clip(exps, lo, hi).astype('int32')).astype(dt)
+        return v
     if dt.kind == 'c':
-        return (ints / 4.0 + 1j * (np.roll(ints, 1) / 2.0)).astype(dt)
+        re, im = ints / 4.0, np.roll(ints, 1) / 2.0
+        if exps is not None:
+            lo, hi = EXP_RANGE[dt.itemsize // 2]
+            fdt = np.dtype('f%d' % (dt.itemsize // 2))
+            re = np.ldexp(re.astype(fdt), np.clip(exps, lo, hi).astype('int32'))
+            im = np.ldexp(im.astype(fdt), np.clip(np.roll(exps, 2), lo, hi - 1).astype('int32'))
+        return (re + 1j * im).astype(dt)
     raise MachineryError('dtype ' + dtype)
+
+
+def gen_exps(rng, n, group, profile=None):
+    """One exponent per element; `group` = elements per mode / per field component (the stride pattern of the small
+    elements is chosen per group so that every mode holds its own peak AND its own tiny elements)."""
+    profile = profile or DYN_PROFILES[int(rng.integers(0, len(DYN_PROFILES)))]
+    if profile == 'wide60':
+        e = rng.integers(-60, 61, size=n)
+    elif profile == 'tiny-in-mode':
+        e = np.where(rng.random(size=n) < 0.35, -rng.integers(53, 90, size=n), 0)
+    elif profile == 'huge-in-mode':
+        e = np.where(rng.random(size=n) < 0.25, rng.integers(53, 90, size=n), 0)
+    elif profile == 'subnormal':
+        e = rng.choice([-2000, -1071, -1060, -1022, -147, -140, -126, -60, 0, -22, -14], size=n)
+    elif profile == 'extremes':
+        e = rng.choice([-2000, 2000, 0, -1, 1], size=n)
+    else:
+        raise MachineryError('profile ' + str(profile))
+    return {'p': profile, 'e': [int(x) for x in e]}
+
+
+def dyn_of(spec):
+    d = spec.get('dyn')
+    return None if not d else d['e']
 
 
 BORDERS = ['=', '<', '>']
@@ -223,7 +274,7 @@ def build_field(spec):
     g = build_grid(spec['grid'])
     shape = tuple(spec['tshape']) + (grid_size(spec['grid']),)
     n = int(np.prod(shape))
-    base = with_border(_values(spec['dtype'], spec['vals'][:n]).reshape(shape), spec.get('border'))
+    base = with_border(_values(spec['dtype'], spec['vals'][:n], dyn_of(spec)).reshape(shape), spec.get('border'))
     vals = apply_layout(base, spec_layout(spec))
     if vals.dtype != base.dtype:
         raise MachineryError('layout lost the byte order')
@@ -238,7 +289,7 @@ def build_basis(spec):
     n = grid_size(spec['grid']) if spec['grid'] is not None else spec['npoints']
     shape = tuple(spec['tshape']) + (n, spec['nmodes'])
     cnt = int(np.prod(shape))
-    T = _values(spec['dtype'], spec['vals'][:cnt]).reshape(shape)
+    T = _values(spec['dtype'], spec['vals'][:cnt], dyn_of(spec)).reshape(shape)
     if spec['kind'] == 'dense':
         T = apply_layout(with_border(T, spec.get('border')), spec_layout(spec))
     if spec['kind'] == 'sparse':
@@ -249,6 +300,8 @@ def build_basis(spec):
             T = scipy.sparse.csc_matrix(T)
         if spec.get('explicit_zero') and T.nnz:
             T.data[0] = 0
+        if spec.get('ezero_step') and T.nnz:
+            T.data[::int(spec['ezero_step'])] = 0     # many explicitly stored zeros, in every mode
     return hcipy.ModeBasis(T, g)
 
 
@@ -496,12 +549,32 @@ def gen_grid(rng, big=False, top_level=False):
         spec['weights'] = {'t': 'autox', 'f': AUTOX[int(rng.integers(0, len(AUTOX)))]}
     if rng.random() < 0.15 and cd != 'int64':
         spec['cscale'] = int(rng.choice([-20, -30, -40, -14, 10]))
+    # dynamic range inside one array (round 6): element-wise powers of two on explicit weights and on the stored
+    # coordinate arrays (2^+-60; float32 coordinates 2^+-20 so that automatic weights stay finite), subnormal weights
+    if spec['weights'] is not None and spec['weights']['t'] in ('array', 'list') and rng.random() < 0.3:
+        w = spec['weights']
+        ex = rng.integers(-60, 61, size=size)
+        if w['t'] == 'list' or w.get('dtype') == 'float64':
+            ex = np.where(rng.random(size=size) < 0.15, -1070, ex)
+        w['v'] = [float(np.ldexp(v, int(e))) for v, e in zip(w['v'], ex)]
+        w['dyn'] = True
+    if kind != 'regular' and cd != 'int64' and rng.random() < 0.2:
+        top_e = 60 if cd == 'float64' else 20
+        spec['axes'] = [[float(np.ldexp(v, int(e))) for v, e in zip(a, rng.integers(-top_e, top_e + 1, size=len(a)))] for a in spec['axes']]
+        spec['cdyn'] = True
     spec['reversed'] = bool(rng.random() < 0.12)
     spec['cborder'] = gen_border(rng)
     spec['mods'] = gen_mods(rng, 'grid') if top_level else []
     if spec['weights'] is not None and spec['weights']['t'] == 'array':
         spec['weights']['border'] = gen_border(rng)
     return spec
+
+
+def _tame(spec):
+    """a float64 field that is cast to float32 afterwards must stay finite (no NaN/inf is sent to the model)"""
+    if spec.get('dyn') and any(m[0] == 'astype' for m in spec.get('mods') or []):
+        lo, hi = EXP_RANGE[4]
+        spec['dyn']['e'] = [max(lo, min(hi - 1, e)) for e in spec['dyn']['e']]
 
 
 AUTOX = [0.25, 1.0 + 2.0 ** -30, 1.0 - 2.0 ** -20, 4.0, 1.0, 1.0 + 2.0 ** -52]
@@ -513,10 +586,14 @@ def gen_field(rng, big=False):
     ts = TSHAPES[int(rng.integers(0, len(TSHAPES)))]
     dt = FIELD_DTYPES[int(rng.integers(0, len(FIELD_DTYPES)))] if rng.random() < 0.7 else 'float64'
     n = int(np.prod(ts + [grid_size(g)]))
-    return {'what': 'field', 'grid': g, 'tshape': ts, 'dtype': dt,
+    spec = {'what': 'field', 'grid': g, 'tshape': ts, 'dtype': dt,
             'vals': [int(x) for x in rng.integers(-12, 13, size=n)],
             'layout': str(rng.choice(LAYOUTS, p=[0.3, 0.27, 0.15, 0.14, 0.14])), 'newstyle': bool(rng.random() < 0.3),
             'border': gen_border(rng), 'mods': gen_mods(rng, 'field')}
+    if rng.random() < 0.3:
+        spec['dyn'] = gen_exps(rng, n, grid_size(g))
+        _tame(spec)
+    return spec
 
 
 def gen_basis(rng, big=False):
@@ -531,10 +608,15 @@ def gen_basis(rng, big=False):
     vals = rng.integers(-12, 13, size=n)
     if kind == 'sparse':
         vals = vals * (rng.random(size=n) < 0.5)
-    return {'what': 'basis', 'grid': g, 'npoints': npoints, 'kind': kind, 'tshape': ts, 'nmodes': nm, 'dtype': dt,
+    spec = {'what': 'basis', 'grid': g, 'npoints': npoints, 'kind': kind, 'tshape': ts, 'nmodes': nm, 'dtype': dt,
             'vals': [int(x) for x in vals], 'explicit_zero': bool(kind == 'sparse' and rng.random() < 0.3),
             'layout': 'C' if kind == 'sparse' else str(rng.choice(LAYOUTS, p=[0.3, 0.27, 0.15, 0.14, 0.14])),
             'border': gen_border(rng), 'mods': gen_mods(rng, 'basis')}
+    if rng.random() < (0.45 if kind == 'sparse' else 0.3):
+        spec['dyn'] = gen_exps(rng, n, npoints)
+    if kind == 'sparse' and rng.random() < 0.2:
+        spec['ezero_step'] = int(rng.integers(2, 4))
+    return spec
 
 
 def _g(kind, system='cartesian', **kw):
@@ -567,6 +649,12 @@ def _b(grid, kind, ts=(), nm=3, dt='float64', **kw):
     d.update(kw)
     return d
 
+
+def _dyn(profile, seed=0, n=200):
+    return gen_exps(np.random.default_rng(1000 + seed), n, n, profile)
+
+
+_WIDE_W = [float(np.ldexp(v, e)) for v, e in zip([1.0, 2.0, 3.0, 4.0, 5.0, 6.0], [0, -60, 60, -1070, 30, -53])]
 
 DIRECTED = [
     _REG1, _REG2, _REG3, _SEPR, _SEPP, _SEP3, _UNS1, _UNS2, _UNS3,
@@ -650,7 +738,35 @@ DIRECTED = [
     dict(_SEPR, weights={'t': 'autox', 'f': 0.25}, mods=[['scale', 2e-7]]),
     _f(dict(_SEPR, cscale=-20, weights={'t': 'autox', 'f': 0.25}), [2]), _b(dict(_REG2, cscale=-20, weights={'t': 'autox', 'f': 4.0}), 'sparse'),
     _f(dict(_REG2, weights={'t': 'autox', 'f': 1.0 + 2.0 ** -30}), []), _b(dict(_SEPR, weights={'t': 'autox', 'f': 1.0 - 2.0 ** -20}), 'dense'),
+    # round 6: dynamic range inside one object (seeded class C16-11: a conversion that drops what is small relative to the
+    # largest element of the same mode): every profile x sparse / dense / tensor bases, fields, weights, coordinates
+    _b(_REG2, 'sparse', dyn=_dyn('tiny-in-mode', 1)), _b(_REG2, 'sparse', dyn=_dyn('wide60', 2)), _b(_REG2, 'sparse', dyn=_dyn('huge-in-mode', 3)),
+    _b(_REG2, 'sparse', dyn=_dyn('subnormal', 4)), _b(_REG2, 'sparse', dyn=_dyn('extremes', 5)), _b(_REG1, 'sparse', dt='float32', dyn=_dyn('tiny-in-mode', 6)),
+    _b(_REG3, 'sparse', dt='complex128', dyn=_dyn('wide60', 7)), _b(_REG2, 'sparse', dt='int64', dyn=_dyn('wide60', 8)),
+    _b(_REG2, 'sparse', dyn=_dyn('tiny-in-mode', 9), ezero_step=2), _b(_REG2, 'sparse', ezero_step=2), _b(_UNS2, 'sparse', ezero_step=3, dyn=_dyn('wide60', 10)),
+    _b(_UNS2, 'sparse', dyn=_dyn('tiny-in-mode', 11)), _b(_SEPR, 'sparse', dyn=_dyn('tiny-in-mode', 12)), _b(None, 'sparse', dyn=_dyn('tiny-in-mode', 13)),
+    _b(_REG2, 'sparse', dyn=_dyn('tiny-in-mode', 14), mods=[['set-format', 'csr_matrix']]), _b(_UNS2, 'sparse', dyn=_dyn('subnormal', 15), mods=[['set-format', 'csr_matrix']]),
+    _b(_REG2, 'sparse', dyn=_dyn('wide60', 16), mods=[['append', 1]]), _b(_REG2, 'dense', dyn=_dyn('tiny-in-mode', 17), mods=[['set-format', 'csc_matrix']]),
+    _b(_REG2, 'dense', dyn=_dyn('tiny-in-mode', 18)), _b(_REG2, 'dense', dyn=_dyn('subnormal', 19)), _b(_REG2, 'dense', ts=[2], dyn=_dyn('wide60', 20)),
+    _b(_UNS2, 'dense', dyn=_dyn('extremes', 21)), _b(_REG2, 'dense', dt='float32', dyn=_dyn('subnormal', 22), border='>'),
+    _b(_REG2, 'dense', dt='complex128', dyn=_dyn('tiny-in-mode', 23), layout='F'), _b(_REG2, 'dense', dt='int32', dyn=_dyn('wide60', 24)),
+    _f(_REG2, [], dyn=_dyn('tiny-in-mode', 25)), _f(_REG2, [2], dyn=_dyn('wide60', 26)), _f(_REG2, [2, 2], dyn=_dyn('subnormal', 27)),
+    _f(_UNS2, [2], dyn=_dyn('extremes', 28)), _f(_SEPR, [], 'float32', dyn=_dyn('subnormal', 29)), _f(_REG2, [], 'float16', dyn=_dyn('wide60', 30)),
+    _f(_REG2, [2], 'complex128', dyn=_dyn('huge-in-mode', 31)), _f(_REG2, [], 'complex64', dyn=_dyn('subnormal', 32)),
+    _f(_REG2, [], 'int64', dyn=_dyn('wide60', 33)), _f(_REG2, [2], 'uint64', dyn=_dyn('wide60', 34)), _f(_REG2, [], 'uint32', dyn=_dyn('wide60', 35)),
+    _f(_REG2, [2], 'int16', dyn=_dyn('wide60', 36)), _f(_REG2, [2], dyn=_dyn('wide60', 37), layout='F', border='>'),
+    _f(_REG2, [2], dyn=_dyn('tiny-in-mode', 38), newstyle=True, mods=[['imul']]),
+    dict(_SEPR, weights={'t': 'array', 'dtype': 'float64', 'v': _WIDE_W, 'dyn': True}), dict(_UNS2, weights={'t': 'array', 'dtype': 'float64', 'v': _WIDE_W[:4], 'dyn': True}),
+    dict(_REG2, weights={'t': 'list', 'v': _WIDE_W + _WIDE_W, 'dyn': True}), dict(_SEPR, weights={'t': 'array', 'dtype': 'float32', 'v': _WIDE_W, 'dyn': True}),
+    _g('unstructured', axes=[[2.0 ** -60, 1.0, 2.0 ** 60, -2.0 ** -1070], [0.0, 2.0 ** -1074, 5.0, 2.0 ** 1000]], cdyn=True),
+    _g('separated', axes=[[-2.0 ** 60, 2.0 ** -60, 3.0], [2.0 ** -1074, 2.0]], cdyn=True),
+    _f(_g('unstructured', axes=[[2.0 ** -60, 1.0, 2.0 ** 60, 3.0], [0.0, 2.0, 5.0, 2.0 ** -500]], cdyn=True), [2], dyn=_dyn('wide60', 39)),
 ]
+
+
+# what an existing file holds before it is overwritten (round 6: overwrite spellings)
+DECOY = {'grid': _g('regular', delta=[2.0], dims=[3], zero=[1.0]), 'field': _f(_g('regular', delta=[2.0], dims=[3], zero=[1.0]), []),
+         'basis': _b(_g('regular', delta=[2.0], dims=[3], zero=[1.0]), 'dense', nm=2)}
 
 
 # ---------------------------------------------------------------------------------------------
@@ -1229,6 +1345,112 @@ def round_trips(spec, tmpdir):
                 obs['unregistered_read_ok'] = 'named ' + nm
             compare(y, route, 'named-file:' + o['fam'])
             unchanged('reading ' + route, 'named')
+        # spellings of the file routes (round 6): overwrite=False on a fresh path, overwrite=False / True over a file that
+        # already holds another object (keyword and positional), the other setting of the asdf memory-map switch
+        sp_fmt = spec.get('spell')
+        if sp_fmt and obs['fmt'].get(sp_fmt, {}).get('w') == 'ok' and obs['fmt'][sp_fmt].get('r') == 'ok':
+            fam = FAM[sp_fmt]
+            sdir = os.path.join(tmpdir, 'spell')
+            os.makedirs(sdir, exist_ok=True)
+            fn = os.path.join(sdir, 'o.' + sp_fmt)
+            rec = {'fmt': sp_fmt, 'fam': fam}
+            obs['spell'] = rec
+
+            def rd(route, **kw):
+                try:
+                    with _NewStyle(spec.get('newstyle')):
+                        return read(fn, **kw)
+                except Exception as e:  # noqa
+                    fails.append(('%s:%s:%s' % (what, fam, ck), '%s succeeded but reading the file back raised %s: %s' % (route, type(e).__name__, str(e)[:100])))
+                    return None
+
+            def put_decoy():
+                if os.path.exists(fn):
+                    os.remove(fn)
+                with _NewStyle(spec.get('newstyle')):
+                    decoy = build(copy.deepcopy(DECOY[what]))
+                write(decoy, fn)
+                with open(fn, 'rb') as fh:
+                    return decoy, fh.read()
+
+            # (1) a path that does not exist, overwrite=False: the same as the default call
+            if os.path.exists(fn):
+                os.remove(fn)
+            route = 'write_%s(%s, overwrite=False) on a fresh path' % (what, sp_fmt)
+            try:
+                write(x, fn, overwrite=False)
+                rec['fresh'] = 'ok'
+            except Exception as e:  # noqa
+                rec['fresh'] = ERRMAP.get(type(e).__name__, 'other:' + type(e).__name__)
+                fails.append(('%s:%s:%s' % (what, fam, ck), '%s raised %s although the default call writes this object' % (route, type(e).__name__)))
+            if rec['fresh'] == 'ok':
+                y = rd(route)
+                rec['fresh_holds'] = 'new' if (y is not None and compare(y, route, fam)) else '?'
+            unchanged(route, fam)
+            # (2) the path holds another object, overwrite=False given positionally: either refused, and then the file is
+            # byte for byte what it was and still reads as the old object, or accepted, and then it reads as the new one
+            try:
+                decoy, old_bytes = put_decoy()
+            except MachineryError:
+                raise
+            except Exception as e:  # noqa
+                decoy = None
+                obs.setdefault('dtype_faults', []).append('spelling decoy: ' + type(e).__name__)
+            if decoy is not None:
+                route = 'write_%s(x, name, None, False) over an existing %s file' % (what, sp_fmt)
+                try:
+                    write(x, fn, None, False)
+                    rec['over_false'] = 'ok'
+                except Exception as e:  # noqa
+                    rec['over_false'] = ERRMAP.get(type(e).__name__, 'other:' + type(e).__name__)
+                    with open(fn, 'rb') as fh:
+                        same = fh.read() == old_bytes
+                    rec['over_false_holds'] = '?'
+                    if not same:
+                        fails.append(('refused-write-alters-file:%s:%s:%s' % (what, fam, ck), '%s raised %s but the file that was there has changed' % (route, type(e).__name__)))
+                    else:
+                        yd = rd(route + ' (refused)')
+                        if yd is not None and first_difference(what, sig(decoy), sig(yd)) is not None:
+                            fails.append(('refused-write-alters-file:%s:%s:%s' % (what, fam, ck), '%s was refused but the old file no longer reads as the object it held' % route))
+                        elif yd is not None:
+                            rec['over_false_holds'] = 'old'
+                if rec['over_false'] == 'ok':
+                    y = rd(route)
+                    rec['over_false_holds'] = 'new' if (y is not None and compare(y, route + ' (accepted)', fam)) else '?'
+                unchanged(route, fam)
+                # (3) overwrite=True over an existing file: always the new object, never the old one or a mixture
+                route = 'write_%s(x, name, overwrite=True) over an existing %s file' % (what, sp_fmt)
+                try:
+                    put_decoy()
+                    write(x, fn, overwrite=True)
+                    rec['over_true'] = 'ok'
+                except MachineryError:
+                    raise
+                except Exception as e:  # noqa
+                    rec['over_true'] = ERRMAP.get(type(e).__name__, 'other:' + type(e).__name__)
+                    fails.append(('%s:%s:%s' % (what, fam, ck), '%s raised %s although the default call on a fresh path writes this object' % (route, type(e).__name__)))
+                if rec['over_true'] == 'ok':
+                    y = rd(route, fmt=None)
+                    rec['over_true_holds'] = 'new' if (y is not None and compare(y, route, fam)) else '?'
+                unchanged(route, fam)
+                # (4) asdf: the module switch use_asdf_memmap selects the keyword asdf.open() gets; with the other setting
+                # the installed asdf may refuse the keyword (counted), but if it reads, it reads the same object
+                if sp_fmt == 'asdf' and rec.get('over_true') == 'ok':
+                    import sys
+                    iomod = sys.modules.get('hcipy.util.io')
+                    if iomod is not None and hasattr(iomod, 'use_asdf_memmap'):
+                        keep = iomod.use_asdf_memmap
+                        iomod.use_asdf_memmap = not keep
+                        try:
+                            with _NewStyle(spec.get('newstyle')):
+                                y = read(fn)
+                            rec['memmap_other'] = 'ok'
+                            compare(y, 'read_%s(asdf) with use_asdf_memmap = %s' % (what, not keep), fam)
+                            _ = sig(y)
+                        except Exception as e:  # noqa
+                            rec['memmap_other'] = type(e).__name__
+                        finally:
+                            iomod.use_asdf_memmap = keep
         # chains: what was read from A is written to B, read, written to C, read
         for k, chain in enumerate(spec.get('chains') or []):
             cur = read_back.get(chain[0])
@@ -1414,6 +1636,12 @@ def model_requests(spec, obs):
         else:
             exp = 'ok read=%s tag=%s holds=true' % (rec['read'], tag)
         reqs.append(('dtype', 'C16 dtype %s %s %s' % (rec['route'], rec['d'], rec['vals']), exp))
+    if 'spell' in obs:
+        r = obs['spell']
+        for k_, ex, ov in (('fresh', 'F', 'F'), ('over_false', 'T', 'F'), ('over_true', 'T', 'T')):
+            if k_ in r:
+                st_ = {'ok': 'ok', 'other:OSError': 'err os'}.get(r[k_], 'err ' + r[k_])
+                reqs.append(('overwrite', 'C16 overwrite %s %s %s' % (r['fam'], ex, ov), '%s holds=%s' % (st_, r.get(k_ + '_holds', '?'))))
     if 'tree' not in obs and 'nogrid_tree' in obs:
         # a mode basis without grid has no dictionary form: every write with a resolvable format is refused with
         # AttributeError (to_dict() runs before the dispatch), in pickle and unknown formats too
@@ -1485,11 +1713,22 @@ def describe(spec):
         gd = (g['kind'], g['system'], len(dims), g['cdtype'], g.get('cborder'), (g['weights'] or {'t': 'none'})['t'], bool(g['reversed']),
               'ragged' if len(set(dims)) > 1 else 'square', g.get('cscale') or 0)
     mods = tuple(m[0] for m in spec.get('mods') or [])
+    if what != 'grid':
+        mods = mods + ('dyn:' + (spec.get('dyn') or {'p': 'none'})['p'], 'ez:%s' % (spec.get('ezero_step') or 0))
+    if g is not None:
+        gd = gd + (bool(g.get('cdyn')), bool((g.get('weights') or {}).get('dyn')))
     if what == 'grid':
         return (what, mods) + gd
     if what == 'field':
         return (what, spec['dtype'], tuple(spec['tshape']), spec_layout(spec), spec['newstyle'], spec.get('border'), mods) + gd
     return (what, spec['kind'], spec['dtype'], tuple(spec['tshape']), spec['nmodes'], spec['explicit_zero'], spec_layout(spec), spec.get('border'), mods) + gd
+
+
+def _bucket(x):
+    for b in (1, 8, 24, 53, 64, 128, 1024):
+        if x < b:
+            return '< %d' % b
+    return '>= 1024'
 
 
 def check_spec(ctx, spec, tmpdir, batch):
@@ -1517,6 +1756,23 @@ def check_spec(ctx, spec, tmpdir, batch):
         ctx.count('field-pickle-fortran-flag:' + str(obs.get('pickle_flag')))
         ctx.count('field-dtype:' + spec['dtype'])
         ctx.count('field-tensor-order:%d' % len(spec['tshape']))
+    if what in ('field', 'basis'):
+        ctx.count('dynamic-range:%s:%s' % (what if what == 'field' else 'basis-' + spec['kind'], (spec.get('dyn') or {'p': 'none'})['p']))
+        v = _vals_of(what, build(spec))
+        if v is not None and v.dtype.kind in 'fc' and v.size:
+            m = np.abs(np.asarray(v)).astype('float64').ravel()
+            m = m[(m > 0) & np.isfinite(m)]
+            if m.size:
+                ctx.count('dynamic-range:log2(max/min nonzero) %s' % _bucket(float(np.log2(m.max()) - np.log2(m.min()))))
+                tiny = np.finfo(v.dtype).tiny
+                if np.any(m < tiny):
+                    ctx.count('dynamic-range:holds-subnormals:' + what)
+    if g is not None and g.get('cdyn'):
+        ctx.count('dynamic-range:coordinates')
+    if g is not None and g.get('weights') and g['weights'].get('dyn'):
+        ctx.count('dynamic-range:weights')
+    if what == 'basis' and spec.get('ezero_step'):
+        ctx.count('sparse:many-explicit-zeros')
     if what == 'basis':
         ctx.count('basis:%s/%s' % (spec['kind'], 'tensor' if spec['tshape'] else 'scalar'))
         ctx.count('basis-dtype:' + spec['dtype'])
@@ -1555,6 +1811,12 @@ def check_spec(ctx, spec, tmpdir, batch):
                                               'model': 'Grid and ModeBasis define no pickling hooks (a pickle holds __dict__); Field defines __reduce__/__getstate__/__setstate__ only'})
     if obs.get('reduce') == []:
         ctx.count('default-pickling-monitored:' + what)
+    if 'spell' in obs:
+        r = obs['spell']
+        for k_ in ('fresh', 'over_false', 'over_true', 'memmap_other'):
+            if k_ in r:
+                ctx.count('spelling:%s:%s:%s' % (r['fam'], {'fresh': 'overwrite=False, no file', 'over_false': 'overwrite=False, file exists',
+                                                             'over_true': 'overwrite=True, file exists', 'memmap_other': 'other use_asdf_memmap'}[k_], r[k_]))
     if 'nogrid_tree' in obs:
         ctx.count('basis-without-grid:sent-to-model')
     if 'spfmt' in obs:
@@ -1652,7 +1914,7 @@ def plain_case(ctx, case, tmpdir, batch):
     ok = True
     shape = tuple(case['shape'])
     n = int(np.prod(shape))
-    a = apply_layout(with_border(_values(case['dtype'], case['vals'][:n]).reshape(shape), case.get('border')), case.get('layout', 'C'))
+    a = apply_layout(with_border(_values(case['dtype'], case['vals'][:n], dyn_of(case)).reshape(shape), case.get('border')), case.get('layout', 'C'))
     before = _raw(a)
     fn = os.path.join(tmpdir, 'plain.' + case['ext'])
     if os.path.exists(fn):
@@ -1714,6 +1976,8 @@ def gen_plain(rng):
             'border': gen_border(rng), 'layout': str(rng.choice(LAYOUTS)), 'ext': 'fits.gz' if rng.random() < 0.4 else 'fits'}
     if rng.random() < 0.25:
         case['newshape'] = [n]
+    if rng.random() < 0.3:
+        case['dyn'] = gen_exps(rng, n, n)
     return case
 
 
@@ -1723,7 +1987,7 @@ def gridless_case(ctx, case, tmpdir):
     import hcipy
     ok = True
     with _NewStyle(case.get('newstyle')):
-        f = hcipy.Field(apply_layout(_values(case['dtype'], case['vals'][:int(np.prod(case['shape']))]).reshape(case['shape']), case.get('layout', 'C')), None)
+        f = hcipy.Field(apply_layout(_values(case['dtype'], case['vals'][:int(np.prod(case['shape']))], dyn_of(case)).reshape(case['shape']), case.get('layout', 'C')), None)
     ref = _arr_sig(np.asarray(f))
     for proto in list(range(pickle.HIGHEST_PROTOCOL + 1)) + ['deepcopy']:
         try:
@@ -1839,6 +2103,9 @@ def run(ctx):
             spec['chains'] = [[a, b, FORMATS[(i // 8) % 4]], [a2, b2, FORMATS[(i // 8 + 2) % 4]]]
         else:
             spec['chains'] = gen_chains(rng, 2)
+    # overwrite / memmap spellings: one format per object, walking through the four
+    for i, spec in enumerate(specs):
+        spec.setdefault('spell', FORMATS[(i + i // 4) % 4])
     # named files: the directed corpus walks through the pool of (file name, fmt) pairs, the rest draws from it
     for i, spec in enumerate(specs):
         if 'named' in spec:
